@@ -79,6 +79,25 @@ class PSyLoop(Loop):
         # TODO 1731: replace iterates_over with iteration_space
         self._iterates_over = "unknown"
 
+    def _refine_copy(self, other):
+        ''' Refine the object attributes when a shallow copy is not the most
+        appropriate operation during a call to the copy() method.
+
+        :param other: object we are copying from.
+        :type other: :py:class:`psyclone.domain.common.psylayer.PSyLoop`
+
+        '''
+        super()._refine_copy(other)
+        # The kernel associated with this loop must be the one in the copied
+        # tree (if the kernel is inside the loop).
+        # pylint: disable=protected-access
+        if other._kern is not None:
+            for old_node, new_node in zip(other.walk(type(other._kern)),
+                                          self.walk(type(other._kern))):
+                if old_node is other._kern:
+                    self._kern = new_node
+                    break
+
     def __eq__(self, other):
         '''
         Checks whether two nodes are equal. Two PSyLoop nodes are equal
